@@ -30,6 +30,17 @@ def ids(s):
     return set(ID_RE.findall(s))
 
 
+_mention_cache = {}
+
+
+def mentions(s, term):
+    """Does the canonical string s mention the lvalue term as a whole token sequence (not as a prefix of a longer name)?"""
+    rx = _mention_cache.get(term)
+    if rx is None:
+        rx = _mention_cache[term] = re.compile(r'(?<![\w])' + re.escape(term) + r'(?![\w])')
+    return rx.search(s) is not None
+
+
 def short(callee):
     return (callee or 'indirect').split('::')[-1]
 
@@ -73,7 +84,10 @@ def canon(e, env=None):
         parts += [canon(a, env) for a in e.get('args', [])]
         if not is_pure_name(c):
             return '%s@%s(%s)' % (c, e.get('l'), ','.join(parts))
-        return c + '(' + ','.join(parts) + ')'
+        r = c + '(' + ','.join(parts) + ')'
+        if env is not None and r in env:
+            return env[r]       # e.g. size(x) after x.resize(n)
+        return r
     if k == 'Un':
         if e['op'] == '*':
             inner = canon(e['e'], None)
@@ -147,15 +161,17 @@ def kill(st, name):
     st.env.pop(name, None)
     st.env.pop('*' + name, None)
     if ID_RE.fullmatch(name):
+        for k in [k for k in st.env if '(' in k and name in ids(k)]:
+            del st.env[k]       # derived keys such as size(name)
         for k, v in list(st.env.items()):
             if k in st.env and (name in ids(v) or (k != name and name in ids(k) and k.startswith('*'))):
                 freeze(st, k)
         st.facts = {f for f in st.facts if name not in ids(f[0])}
     else:
         for k, v in list(st.env.items()):
-            if k in st.env and name in v:
+            if k in st.env and mentions(v, name):
                 freeze(st, k)
-        st.facts = {f for f in st.facts if name not in f[0]}
+        st.facts = {f for f in st.facts if not mentions(f[0], name)}
 
 
 class Interp:
@@ -190,6 +206,9 @@ class Interp:
         their variable name (rules identify them through rulelib.handle_objects); scalars and values are substituted."""
         if not self.SUBST_POINTERS and self.is_pointer(name.lstrip('*')) and not name.startswith('*'):
             return val in ('NULL', 'NULL_PTR', '0', 'nullptr')
+        t = self.types.get(name, '').replace('const ', '').rstrip('& ')
+        if t in ('ByteString', 'std::string') or (t.startswith('std::') and 'iterator' not in t):
+            return False        # mutable containers keep their name (size(x) facts are keyed by it)
         return True
 
     def on_call(self, e, st): pass
@@ -220,6 +239,7 @@ class Interp:
             if e.get('fn') is not None:
                 self.effects(e['fn'], st)
             self.havoc_args(e, st)
+            self.container_model(e, st)
             self.on_call(e, st)
             return
         if k in ('Ctor', 'New'):
@@ -271,9 +291,9 @@ class Interp:
                 nm = a['name']
                 st.env.pop('*' + nm, None)
                 for k2, v2 in list(st.env.items()):
-                    if k2 in st.env and ('*' + nm) in v2:
+                    if k2 in st.env and mentions(v2, '*' + nm):
                         freeze(st, k2)
-                st.facts = {f for f in st.facts if ('*' + nm) not in f[0]}
+                st.facts = {f for f in st.facts if not mentions(f[0], '*' + nm)}
                 if self.is_array(nm):
                     kill(st, nm)
         # non-const method on a local object (not through a pointer): the object changes
@@ -283,6 +303,24 @@ class Interp:
             c = short(e.get('callee'))
             if not is_pure_name(c):
                 kill(st, r['name'])
+
+    def container_model(self, e, st):
+        """x.resize(n) / x.wipe(n): afterwards x.size() == n (ByteString / std::vector API)."""
+        r = e.get('recv')
+        c = short(e.get('callee'))
+        if c == 'generateRandom' and len(e.get('args', [])) == 2 and e['args'][0] is not None and e['args'][0].get('k') == 'Var':
+            st.env['size(%s)' % e['args'][0]['name']] = canon(e['args'][1], st.env)
+            return
+        if r is None or r.get('k') != 'Var' or r['kind'] not in ('local', 'param'):
+            return
+        if c in ('resize', 'wipe') and len(e.get('args', [])) >= 1 and e['args'][0] is not None:
+            st.env['size(%s)' % r['name']] = canon(e['args'][0], st.env)
+            return
+        # rng->generateRandom(x, n): x.size() == n afterwards (RNG interface contract: data.resize(len))
+        if c == 'generateRandom' and len(e.get('args', [])) == 2 and e['args'][0].get('k') == 'Var':
+            st.env['size(%s)' % e['args'][0]['name']] = canon(e['args'][1], st.env)
+        elif c == 'wipe' and not e.get('args'):
+            pass
 
     def is_pointer(self, name):
         t = self.types.get(name, '')
@@ -302,15 +340,18 @@ class Interp:
             key = '*' + lhs['e']['name']
             val = canon(rhs, st.env) if (op == '=' and rhs is not None) else None
             st.env.pop(key, None)
-            st.facts = {f for f in st.facts if key not in f[0]}
-            if val is not None and key not in val and self.track(key, val, rhs):
+            for k2, v2 in list(st.env.items()):
+                if k2 in st.env and mentions(v2, key):
+                    freeze(st, k2)
+            st.facts = {f for f in st.facts if not mentions(f[0], key)}
+            if val is not None and not mentions(val, key) and self.track(key, val, rhs):
                 st.env[key] = val
         else:
             c = canon(lhs)
-            st.facts = {f for f in st.facts if c not in f[0]}
+            st.facts = {f for f in st.facts if not mentions(f[0], c)}
             for k2, v in list(st.env.items()):
-                if c in v:
-                    del st.env[k2]
+                if k2 in st.env and mentions(v, c):
+                    freeze(st, k2)
         self.on_assign(lhs, rhs, st)
 
     # ---- finite-domain evaluation (E1): some leaves are given concrete values by the rule ----------
@@ -579,6 +620,9 @@ class Interp:
                     if init is not None:
                         self.effects(init, st)
                         self.assign(dcl['var'], init, st)
+                        if init.get('k') == 'Ctor' and init.get('type', '').endswith('ByteString') and len(init.get('args', [])) == 2 \
+                                and init.get('sig', '').startswith('const unsigned char *'):
+                            st.env['size(%s)' % name] = canon(init['args'][1], st.env)
                     else:
                         kill(st, name)
                     out.append(st)
